@@ -247,16 +247,22 @@ class LDMService:
             tuple of ordered tuples of data objects.
         """
 
-        def build_key(item):
-            return tuple(
-                Utils.get_nested(item, Utils.find_attribute(order.attribute, item))
-                for order in orders
+        def key_for(order: OrderTupleValue):
+            return lambda item: Utils.get_nested(
+                item, Utils.find_attribute(order.attribute, item)
             )
 
-        reverse = any(
-            order.ordering_direction == OrderingDirection.DESCENDING for order in orders
-        )
-        return (tuple(sorted(search_results, key=build_key, reverse=reverse)),)
+        # Stable sorts from the last to the first ordering attribute, each in its own direction.
+        ordered = tuple(search_results)
+        for order in reversed(orders):
+            ordered = tuple(
+                sorted(
+                    ordered,
+                    key=key_for(order),
+                    reverse=order.ordering_direction == OrderingDirection.DESCENDING,
+                )
+            )
+        return (ordered,)
 
     def add_provider_data(self, data: AddDataProviderReq) -> int | None:
         """
